@@ -82,7 +82,7 @@ StoreCS(t) ==
     /\ pc' = [pc EXCEPT ![t] = <<"idle">>] /\ L("StoreCS", t)
     /\ UNCHANGED <<alive, pruneFlag, mutex, em, nops, nemit, inv, snapAt>>
 \* ---- disconnect / disconnectAll
-Gone(ids) == [i \in DOMAIN conn |-> IF i \in ids /\ conn[i].d = 0 THEN [conn[i] EXCEPT !.d = clk] ELSE conn[i]]
+Gone(ids) == [i \in DOMAIN conn |-> IF i \in ids /\ conn[i].d = 0 THEN [conn[i] EXCEPT !.d = clk] ELSE conn[i]]   \* (unknown ids: no-op)
 DisconnectCS(t, id) ==
     /\ Go(t) /\ nops' = nops + 1 /\ id \in 1..(nextId - 1) /\ mutex = "-"
     /\ slots' = Remove(slots, id) /\ conn' = Gone({id}) /\ Tick /\ L("DisconnectCS", t)
@@ -107,21 +107,23 @@ EmitLoad(t) ==
     /\ UNCHANGED <<slots, nextId, alive, pruneFlag, inv, conn>>
 \* ... then one step per slot of the snapshot (Dev_IterateLive: of the live list)
 Src(t) == IF Dev_IterateLive THEN slots ELSE em[t].snap
-EmitStep(t) ==
-    /\ pc[t] = <<"iter">> /\ em[t].i < Len(Src(t))
-    /\ LET sl == Src(t)[em[t].i + 1]
-           snap == Src(t) IN
-       IF Expired(sl) /\ ~Dev_NoExpiryCheck
-       THEN /\ em' = [em EXCEPT ![t].i = @ + 1, ![t].anyExp = TRUE]
-            /\ UNCHANGED <<inv, pc>>
-       ELSE /\ em' = [em EXCEPT ![t].i = @ + 1]
-            /\ inv' = Append(inv, [x |-> em[t].x, id |-> sl.id, ok |-> ~Expired(sl)])
-            /\ pc' = [pc EXCEPT ![t] =
+Turn(t) == pc[t] = <<"iter">> /\ em[t].i < Len(Src(t))
+Cur(t) == Src(t)[em[t].i + 1]
+EmitSkip(t) ==        \* an expired weak slot is passed over and remembered for the prune
+    /\ Turn(t) /\ Expired(Cur(t)) /\ ~Dev_NoExpiryCheck
+    /\ em' = [em EXCEPT ![t].i = @ + 1, ![t].anyExp = TRUE]
+    /\ L("EmitSkip", t) /\ UNCHANGED <<slots, nextId, alive, pruneFlag, mutex, pc, nops, nemit, clk, inv, conn, snapAt>>
+EmitInvoke(t) ==      \* the slot body runs; some kinds call the signal themselves
+    /\ Turn(t) /\ (~Expired(Cur(t)) \/ Dev_NoExpiryCheck)
+    /\ LET sl == Cur(t) IN
+       /\ em' = [em EXCEPT ![t].i = @ + 1]
+       /\ inv' = Append(inv, [x |-> em[t].x, id |-> sl.id, ok |-> ~Expired(sl), at |-> clk])
+       /\ pc' = [pc EXCEPT ![t] =
                  CASE sl.kind = "selfdisc" -> <<"nested", "disc", sl.id>>
-                   [] sl.kind = "killnext" /\ em[t].i + 2 <= Len(snap) -> <<"nested", "disc", snap[em[t].i + 2].id>>
+                   [] sl.kind = "killnext" -> <<"nested", "disc", sl.id + 1>>
                    [] sl.kind = "connector" /\ nextId <= MaxIds -> <<"nested", "conn", 0>>
                    [] OTHER -> <<"iter">>]
-    /\ L("EmitStep", t) /\ UNCHANGED <<slots, nextId, alive, pruneFlag, mutex, nops, nemit, clk, conn, snapAt>>
+    /\ L("EmitInvoke", t) /\ UNCHANGED <<slots, nextId, alive, pruneFlag, mutex, nops, nemit, clk, conn, snapAt>>
 \* a slot body calling connect / disconnect on the same signal
 NestedCS(t) ==
     /\ pc[t][1] = "nested"
@@ -155,7 +157,7 @@ EmitRet(t) ==
 
 Next == \E t \in Procs :
           \/ \E k \in Kinds : \E w \in Objs \cup {0} : ConnectCS(t, k, w) \/ CloneNoLock(t, k, w)
-          \/ StoreCS(t) \/ DisconnectAllCS(t) \/ EmitLoad(t) \/ EmitStep(t) \/ NestedCS(t) \/ EmitEnd(t)
+          \/ StoreCS(t) \/ DisconnectAllCS(t) \/ EmitLoad(t) \/ EmitSkip(t) \/ EmitInvoke(t) \/ NestedCS(t) \/ EmitEnd(t)
           \/ PruneCS(t) \/ PruneClear(t) \/ EmitRet(t)
           \/ \E id \in 1..MaxIds : DisconnectCS(t, id)
           \/ \E w \in Objs : Expire(t, w)
@@ -178,4 +180,8 @@ PruneKeepsLive == last.act = "PruneCS" => \A i \in 1..Len(last.before) : ~Expire
 PruneRemovesExpired == last.act = "PruneCS" => \A i \in 1..Len(slots) : ~Expired(slots[i])
 PrunedAfterEmit == (last.act = "EmitRet" /\ ~last.overlap /\ last.anyExp) => last.pruned   \* alone, an emit that met an expired slot prunes
 NoSelfDeadlock == \A t \in Procs : pc[t] # <<"stuck">>
+\* NOT an invariant of the code as it is (snapshot semantics): a slot never runs after a disconnect of its id took effect
+NoCallAfterDisconnect == \A i \in 1..Len(inv) : conn[inv[i].id].d = 0 \/ conn[inv[i].id].d >= inv[i].at
+\* state view for behaviour generation (without the ghosts)
+GenView == <<slots, nextId, alive, pruneFlag, mutex, pc, em, nops, nemit>>
 ===========================================================================
